@@ -37,11 +37,12 @@ POOL_ANY = ('starmap', 'map', 'imap', 'imap_unordered', 'apply', 'apply_async', 
 
 
 def run(ctx):
-    rule_carrier_flow(ctx, 'C06.R1')
-    rule_no_replacement(ctx, 'C06.R2')
+    ctx.rule(rule_carrier_flow, 'C06.R1')
+    ctx.rule(rule_no_replacement, 'C06.R2')
+    ctx.rule(rule_pad_tables, 'C06.R2')
     from .c18 import rule_config_keys
-    rule_config_keys(ctx, 'C06.R3')
-    rule_sibling_forwarding(ctx, 'C06.R4')
+    ctx.rule(rule_config_keys, 'C06.R3')
+    ctx.rule(rule_sibling_forwarding, 'C06.R4')
 
 
 # ----------------------------------------------------------------------------------------------
@@ -302,6 +303,23 @@ def rule_no_replacement(ctx, rid, only=None):
                 ctx.passed(rid, fi, construct, '%d assignment(s), all defaulting idiom' % len(assigns), node=fi.node)
 
 
+class _AnyDefaults:
+    """stand-in for a stage whose defaults are not compared here (nested pad tables: C06.R3 / C18.R1 compare them)"""
+    name = 'np.pad'
+
+    class _D(dict):
+        def get(self, k, d=None):
+            return _ANY
+    defaults = _D()
+
+
+class _AnyNode:
+    pass
+
+
+_ANY = _AnyNode()
+
+
 def _defaulting_ok(fi, a, carrier, stagef):
     from .common import guards_of
     if not isinstance(a, ast.Assign):
@@ -328,6 +346,8 @@ def _defaulting_ok(fi, a, carrier, stagef):
                     d = stagef.defaults.get(k)
                     if d is None:
                         return 'default key %r is not a formal of %s' % (k, stagef.name)
+                    if d is _ANY:
+                        continue
                     dv = _literal(d)
                     if dv is _NoLit or dv != val:
                         return 'default %s=%r differs from the signature default %r of %s' % (k, val, dv, stagef.name)
@@ -360,6 +380,8 @@ def _defaulting_ok(fi, a, carrier, stagef):
             d = stagef.defaults.get(k)
             if d is None:
                 return 'default key %r is not a formal of %s' % (k, stagef.name)
+            if d is _ANY:
+                continue
             dv = _literal(d)
             if dv is _NoLit or dv != val or type(dv) is not type(val) and not (
                     isinstance(dv, (int, float)) and isinstance(val, (int, float))):
@@ -374,6 +396,31 @@ def _defaulting_ok(fi, a, carrier, stagef):
                                         and not v.keywords)):
         return None
     return 'supplied options replaced by %s' % unparse(v)[:60]
+
+
+def rule_pad_tables(ctx, rid):
+    """The nested np.pad option tables of get_padded_extrema follow the same discipline as the carriers: a supplied
+    table is used as it is (or copied); only a missing / empty one is replaced by the default table.  Merging the
+    defaults into a supplied table injects options the user did not ask for (stat_length=1 under mode='mean')."""
+    P = ctx.P
+    fi = P.func('emd.sift.get_padded_extrema')
+    for name in ('loc_pad_opts', 'mag_pad_opts'):
+        if name not in fi.all_formals():
+            continue
+        assigns = [n for n in walk_local(fi.node)
+                   if isinstance(n, ast.Assign) and any(isinstance(t, ast.Name) and t.id == name for t in n.targets)]
+        c = '%s only replaced by the defaulting idiom' % name
+        bad = None
+        for a in assigns:
+            why = _defaulting_ok(fi, a, name, _AnyDefaults)
+            if why:
+                bad = (a, why)
+                break
+        if bad:
+            ctx.violation(rid, fi, c, 'a supplied %s is replaced or altered: %s' % (name, bad[1]), node=bad[0],
+                          found=unparse(bad[0])[:100])
+        else:
+            ctx.passed(rid, fi, c, '%d assignment(s), all defaulting idiom' % len(assigns))
 
 
 # ----------------------------------------------------------------------------------------------
